@@ -95,7 +95,9 @@ theorem callStep_inv [DecidableEq σ] {I : σ → Int → Prop} (hm : Mono I) (s
       simp only [Option.some.injEq] at hr
       subst hr
       exact ⟨t, hnew⟩
-    · exact ⟨hs, trivial, fun r hr => by simp only [Option.some.injEq] at hr; subst hr; trivial⟩
+    · split
+      · exact ⟨hs, trivial, by simp⟩
+      · exact ⟨hs, trivial, fun r hr => by simp only [Option.some.injEq] at hr; subst hr; trivial⟩
 
 theorem threadGo_inv [DecidableEq σ] {I : σ → Int → Prop} (hm : Mono I) (store : σ) (now : Int)
     (results : List (Res σ ε)) (c : Call σ ε) (p : Phase σ) (todo : List (Call σ ε))
@@ -211,7 +213,7 @@ theorem threadStep_seq [DecidableEq σ] (store : σ) (now : Int) (th : Thread σ
         subst heq
         exact ⟨t, rfl, by simp [threadGo, callStep], by simp [threadGo, callStep]⟩
       · left
-        simp [threadGo, callStep, heq]
+        by_cases hr : c.retry = true <;> simp [threadGo, callStep, heq, hr]
   obtain ⟨cur, todo, results⟩ := th
   cases cur with
   | none =>
